@@ -21,6 +21,7 @@ from pathlib import Path
 
 import c05 as B
 import lib
+from translate import binder as tr_binder
 from translate import kinds as tr_kinds
 
 PROP = "C07"
@@ -36,7 +37,7 @@ KNOWN_TEXT = {
 
 
 def gen_files():
-    return {"Kinds.v": tr_kinds.translate(str(lib.REPO))}
+    return {"Kinds.v": tr_kinds.translate(str(lib.REPO)), "BinderShape.v": tr_binder.translate(str(lib.REPO))}
 
 
 # ---------------------------------------------------------------------------
@@ -319,7 +320,7 @@ def run(tier: str, replay: str | None = None):
     broken_translation = None
     try:
         gen = gen_files()
-    except tr_kinds.TranslateError as ex:
+    except (tr_kinds.TranslateError, tr_binder.TranslateError) as ex:
         broken_translation = str(ex)
         gen = None
     proof = lib.prove(PROP, gen, thorough=thorough) if gen is not None else None
@@ -489,7 +490,7 @@ def run(tier: str, replay: str | None = None):
     if ov_bad and not found:
         rep.violation({"kind": "broken-correspondence", "correspondence": "Signature.can_assign vs override check (incompatible_override)", **ov_bad[0]}, no_failing_input=True)
     if broken_translation and not found:
-        rep.violation({"kind": "broken-obligation", "theorem": "Gen/Kinds.v (translator)", "detail": broken_translation}, no_failing_input=True)
+        rep.violation({"kind": "broken-obligation", "theorem": "Gen/Kinds.v, Gen/BinderShape.v (translators harness/translate/kinds.py, binder.py)", "detail": broken_translation}, no_failing_input=True)
     if proof is not None and not proof.ok and not found:
         rep.violation({"kind": "broken-obligation", "theorem": "; ".join(proof.broken), "log": proof.log[-1500:]}, no_failing_input=True)
     for sb in spec_bad[:3]:
